@@ -14,6 +14,7 @@ import NdcubeModel.Model.SeqCrop
 import NdcubeModel.Model.SeqCoords
 import NdcubeModel.Model.Arith
 import NdcubeModel.Model.Reproject
+import NdcubeModel.Model.Frame
 
 /-!
 # Line-protocol driver
@@ -814,6 +815,35 @@ def opReproject (j : Json) : R Json := do
     pure <| Json.mkObj [("decision", decision),
       ("values", listJson (fun p => optJson ratJson (reprojShift shape src s p)) probes)]
 
+/-! ## op `frame` (C07) -/
+
+def asOpKind (s : String) : R OpKind :=
+  match s with
+  | "slice" => pure .slice | "arithmetic" => pure .arithmetic | "rebin" => pure .rebin
+  | "reproject" => pure .reproject | "query" => pure .query
+  | _ => .error s!"unknown op kind {s}"
+
+def opFrame (j : Json) : R Json := do
+  let steps ← field j "steps" >>= asList fun s =>
+    match optField s "derive" with
+    | some d => do
+      let src ← asNat d
+      let k ← field s "kind" >>= asStr >>= asOpKind
+      pure (Step.derive src k)
+    | none => do
+      let o ← field s "write" >>= asNat
+      pure (Step.write o 999983)
+  let h0 := Heap.init (fun a => 100 + a)
+  let (_, outs) := steps.foldl (fun (acc : Heap × List Json) st =>
+      let h := acc.1
+      let h' := h.step st
+      let changed := (List.range h.objs.length).filter fun i => h'.observe i != h.observe i
+      let sharing := match st with
+        | .derive _ k => listJson Json.bool (payloads.map (shares k))
+        | .write _ _ => Json.null
+      (h', acc.2 ++ [Json.mkObj [("changed", listJson natJson changed), ("shares", sharing)]])) (h0, [])
+  pure <| Json.mkObj [("steps", Json.arr outs.toArray)]
+
 def dispatch (j : Json) : R Json := do
   let op ← field j "op" >>= asStr
   match op with
@@ -839,6 +869,7 @@ def dispatch (j : Json) : R Json := do
   | "table_coord" => opTableCoord j
   | "arith" => opArith j
   | "reproject" => opReproject j
+  | "frame" => opFrame j
   | "seq_coords" => opSeqCoords j
   | "seq_axis" => opSeqAxis j
   | _ => .error s!"unknown op {op}"
